@@ -489,8 +489,13 @@ def gen_document(rng, depth=0, python_form=True):
             return rng.choice(INTS)
         if r < 0.7:
             return rng.choice(FLOATS)
-        if r < 0.85:
+        if r < 0.8:
             return rng.choice(STRINGS)
+        if r < 0.85:
+            # dictionaries that LOOK like a complex notation but are not one (extra key, partial, both notations)
+            return rng.choice([{"real": 1.5, "imag": -2.0, "unit": "V"}, {"abs": 2.0}, {"phase": 0.5}, {"real": 3.0},
+                               {"real": 1.0, "imag": 2.0, "abs": 3.0, "phase": 0.1}, {"abs": 1.0, "phase": 0.2, "phase_deg": 11.0},
+                               {"Real": 1.0, "Imag": 2.0}, {"abs": 2.0, "phase": 0.3, "note": "Ω"}])
         if r < 0.92:
             return rng.choice([True, False])
         return None
@@ -506,7 +511,11 @@ def gen_document(rng, depth=0, python_form=True):
         return [node(d + 1) for _ in range(rng.randint(0, 3))]
     n = rng.randint(1, 4)
     keys = rng.sample(["z", "cfg", "items", "name", "Ω", "deep", "n"], n)
-    return {k: node(1) for k in keys}
+    doc = {k: node(1) for k in keys}
+    if rng.random() < 0.1:
+        # ordinary members whose NAMES are notation words, next to other members
+        doc[rng.choice(["real", "abs", "phase", "imag"])] = rng.choice([1.0, "x", [1, 2]])
+    return doc
 
 
 def gen_document_recipe(rng, python_form=True, alias_p=0.35):
